@@ -286,7 +286,7 @@ func c07Execute(c *c07Case, rt *rapid.T, base string) (fail *vh.Failure, labels 
 				ls.Close()
 				return vh.Failf("entry-lost", "entry %d is gone from the durable raft log after the node died: %v", e.Id, err), keys2(lab), true
 			}
-			got := robust.NewMessageFromBytes(l.Data, e.Id)
+			got := robust.NewMessageFromBytes(l.Data, robust.IdFromRaftIndex(e.Id))
 			want := toMessage(e)
 			if got.Type == robust.MessageOfDeath && want.Type != robust.MessageOfDeath {
 				if !marked[e.Id] {
@@ -369,7 +369,7 @@ func c07Execute(c *c07Case, rt *rapid.T, base string) (fail *vh.Failure, labels 
 				later = true
 			}
 		}
-		key := fmt.Sprintf(".sessions[.Id=%d,.Reply=0].lastClientMessageId", de.Session)
+		key := fmt.Sprintf(".sessions[.Id=%d,.Reply=0].lastClientMessageId", robust.IdFromRaftIndex(de.Session))
 		if got, ok := dump.State[key]; ok && !later && got != fmt.Sprint(de.CMID) {
 			return vh.Failf("marker-not-advanced", "entry %d (client message id %d) was skipped as message of death, but the session's last client message id on the restarted node is %s: a retry of that message would be applied", d, de.CMID, got), keys2(lab), true
 		}
